@@ -83,6 +83,7 @@ struct Interp
       }
       if ((k == "param")&&(n >= 3)) {MessageRef m = GetMessageFromPool(PR_COMMAND_SETPARAMETERS); (void) m()->AddInt32(Unesc(A(1)).c_str(), (int32) ToI(A(2))); return m;}
       if ((k == "rmparam")&&(n >= 2)) {MessageRef m = GetMessageFromPool(PR_COMMAND_REMOVEPARAMETERS); String esc = EscapeRegexTokens(String(Unesc(A(1)).c_str())); (void) m()->AddString(PR_NAME_KEYS, esc); return m;}
+      if ((k == "rmparamw")&&(n >= 2)) {MessageRef m = GetMessageFromPool(PR_COMMAND_REMOVEPARAMETERS); (void) m()->AddString(PR_NAME_KEYS, Unesc(A(1)).c_str()); return m;}   // wildcard form (not escaped)
       if ((k == "ping")&&(n >= 2)) {MessageRef m = GetMessageFromPool(PR_COMMAND_PING); (void) m()->AddInt32("tag", (int32) ToI(A(1))); return m;}
       if ((k == "route")&&(n >= 3))
       {
@@ -110,6 +111,15 @@ struct Interp
          for (size_t i=1; i+1<n; i+=2) (void) m()->AddString(Unesc(A(i)).c_str(), (A(i+1) == "-") ? "zzz_end" : Unesc(A(i+1)).c_str());
          return m;
       }
+      if ((k == "priv")&&(n >= 3))
+      {
+         // privileged command codes sent without privilege: must bounce as PR_RESULT_ERRORACCESSDENIED and change nothing
+         static const uint32 whats[] = {PR_COMMAND_KICK, PR_COMMAND_ADDBANS, PR_COMMAND_REMOVEBANS, PR_COMMAND_ADDREQUIRES, PR_COMMAND_REMOVEREQUIRES};
+         MessageRef m = GetMessageFromPool(whats[ToU(A(1)) % 5]);
+         for (size_t i=2; i<n; i++) (void) m()->AddString(PR_NAME_KEYS, Unesc(A(i)).c_str());
+         return m;
+      }
+      if ((k == "setpriv")&&(n >= 2)) {MessageRef m = GetMessageFromPool(PR_COMMAND_SETPARAMETERS); (void) m()->AddInt32(PR_NAME_PRIVILEGE_BITS, (int32) ToI(A(1))); return m;}
       if ((k == "hostile")&&(n >= 3)) return HostileMessage(ToU(A(1)), (int) ToI(A(2)));
       return MessageRef();
    }
